@@ -77,6 +77,11 @@ CURATED = [
     "def p(a: Qint[4]) -> Qint[2]:\n\treturn a",
     "def p(a: Qint[2]) -> Qint[4]:\n\treturn a",
     "def p(a: Qint[2]) -> Qint[4]:\n\treturn 12",
+    # wide returns: more than ten return bits (bit names _ret.10, _ret.11 ... sort before _ret.2)
+    "def p(a: Qint[4]) -> Qint[12]:\n\treturn a",
+    "def p(a: Qint[4], b: Qint[4]) -> Qint[16]:\n\treturn a * b + 3",
+    "def p(a: Qint[2], b: bool) -> Tuple[Qint[12], bool]:\n\treturn (a + 1000, b)",
+    "def p(a: Qint[2]) -> Qlist[bool, 12]:\n\treturn [a[0], a[1], True, False, a[0], a[1], a[1], a[0], False, True, a[1], a[0]]",
     # statements
     "def p(a: Qint[2], b: bool) -> Qint[4]:\n\tc = 0\n\tif b:\n\t\tc += 12\n\telse:\n\t\tc += 3\n\treturn c + a",
     "def p(a: bool, b: bool) -> bool:\n\tc = a\n\tif b:\n\t\tc = not c\n\treturn c",
